@@ -44,7 +44,7 @@ def _instances(tier):
     return [(2, 2, 1, True), (2, 1, 2, True), (2, 2, 2, False), (3, 2, 1, False)]
 
 
-LT_BASE = "CONSTANTS N = %d  EARLY_PUBLISH = %s  SPLIT_ASSIGN = %s\nSPECIFICATION Spec\n"
+LT_BASE = "CONSTANTS N = %d  EARLY_PUBLISH = %s  SPLIT_ASSIGN = %s  TORN_READ = %s\nSPECIFICATION Spec\n"
 LT_INV = ("INVARIANTS TypeOK PubEmptyOrComplete CoordsOldOrNew AloneOK LocIsPrefix ReaderOK FinalOK\n"
           "PROPERTIES StepsAreEffects BuilderFinishes\n")
 
@@ -64,9 +64,10 @@ def _all_tlc_runs(tier, wd):
     jobs["rw_bad1"] = (RW_MC, _rw_cfg(2, 2, 1, invariants="Mutex", props="", nxt="BadNextNoExcl"), os.path.join(wd, "rw_bad1"), dict(small))
     jobs["rw_bad2"] = (RW_MC, _rw_cfg(2, 2, 1, invariants="TypeOK", props="", nxt="BadNextNoQueueRel"), os.path.join(wd, "rw_bad2"), dict(small, deadlock=True))
     N = 8 if tier == "thorough" else 5
-    jobs["lt"] = (LT_MC, LT_BASE % (N, "FALSE", "FALSE") + LT_INV, os.path.join(wd, "lt"), dict(small, deadlock=True, coverage=True))
-    jobs["lt_EARLY_PUBLISH"] = (LT_MC, LT_BASE % (N, "TRUE", "FALSE") + "INVARIANTS ReaderOK\n", os.path.join(wd, "lt_e"), dict(small, deadlock=True))
-    jobs["lt_SPLIT_ASSIGN"] = (LT_MC, LT_BASE % (N, "FALSE", "TRUE") + "INVARIANTS ReaderOK\n", os.path.join(wd, "lt_s"), dict(small, deadlock=True))
+    jobs["lt"] = (LT_MC, LT_BASE % (N, "FALSE", "FALSE", "FALSE") + LT_INV, os.path.join(wd, "lt"), dict(small, deadlock=True, coverage=True))
+    jobs["lt_EARLY_PUBLISH"] = (LT_MC, LT_BASE % (N, "TRUE", "FALSE", "FALSE") + "INVARIANTS ReaderOK\n", os.path.join(wd, "lt_e"), dict(small, deadlock=True))
+    jobs["lt_SPLIT_ASSIGN"] = (LT_MC, LT_BASE % (N, "FALSE", "TRUE", "FALSE") + "INVARIANTS ReaderOK\n", os.path.join(wd, "lt_s"), dict(small, deadlock=True))
+    jobs["lt_TORN_READ"] = (LT_MC, LT_BASE % (N, "FALSE", "FALSE", "TRUE") + "INVARIANTS ReaderOK\n", os.path.join(wd, "lt_t"), dict(small, deadlock=True))
     out = {}
     with cf.ThreadPoolExecutor(max_workers=6) as ex:
         futs = {k: ex.submit(tlc.run, m, cfg, d, **kw) for k, (m, cfg, d, kw) in jobs.items()}
@@ -80,6 +81,16 @@ def _all_tlc_runs(tier, wd):
 # RWLock: S->C walk (worker side; state is inherited through fork)
 
 _W = {}
+
+
+def _pmap(fn, tasks, chunksize, what):
+    """map over forked worker processes; a worker that dies is a tool failure (never a hang)"""
+    from concurrent.futures.process import BrokenProcessPool
+    try:
+        with cf.ProcessPoolExecutor(max_workers=NPROC, mp_context=mp.get_context("fork")) as ex:
+            return list(ex.map(fn, tasks, chunksize=chunksize))
+    except BrokenProcessPool as e:
+        raise MachineryError("%s: a worker process died (%s)" % (what, e))
 
 
 def _load_module(path, name):
@@ -110,8 +121,7 @@ def _walk_all(graph, info, inst, paths, wd):
     step = max(1, min(64, n // (NPROC * 4) or 1))
     chunks = [list(range(i, min(n, i + step))) for i in range(0, n, step)]
     t0 = time.time()
-    with mp.get_context("fork").Pool(NPROC) as pool:
-        outs = pool.map(_walk_chunk, chunks, chunksize=1)
+    outs = _pmap(_walk_chunk, chunks, 1, "edge walk")
     covered, steps, runs, mism = set(), 0, 0, []
     for o in outs:
         if "machinery" in o:
@@ -135,11 +145,46 @@ MUTANTS = {
 }
 
 
+def _structure_check(rep, rwmod):
+    """The specification has five distinct locks per RWLock and nothing shared between two RWLocks.  A real lock
+    built differently is a difference between code and specification (a VIOLATION, not a tool failure); the walk,
+    which needs the five locks to be made by threading.Lock() when the RWLock is constructed, is then replaced by a
+    search for a deadlock on a private copy of the module loaded under the lock factory."""
+    probs = sched.structure_problems(rwmod)
+    try:
+        sched.RealRW(rwmod, 1, 1, 1).close(abandon=True)
+        installable = True
+    except sched.StructureDiffers as e:
+        installable = False
+        if not probs:       # distinct per-instance locks that merely are not made through `threading.Lock()`: cannot observe
+            raise MachineryError("the lock factory cannot be installed: %s" % e)
+    if not probs:
+        return True
+    data = {"differences": probs, "specification": "five distinct threading.Lock objects per RWLock (rq, nr, nw, rm, wm), none shared"}
+    try:
+        m = rwmod if installable else sched.load_under_factory(rwmod.__file__, "c20_rwlock_private_copy")
+        for (R, W) in ((1, 1), (2, 1), (1, 2)):
+            found = sched.find_deadlock(m, R, W, 1)
+            if found:
+                sch, proj = found
+                data["deadlock"] = {"readers": R, "writers": W, "schedule_of_thread_ids": sch, "real_state": sched.describe(proj)}
+                rep.violation("C20:rwlock-deadlock",
+                              "the real RWLock deadlocks with %d reader(s) + %d writer(s) after the lock-level schedule %s "
+                              "(the specification has no deadlock)" % (R, W, sch), data["deadlock"])
+                break
+    except (MachineryError, sched.StructureDiffers) as e:
+        data["deadlock_search"] = "not possible: %s" % e
+    rep.violation("C20:rwlock-structure-differs",
+                  "the underlying locks of the real RWLock are not five distinct per-instance locks: " + "; ".join(probs[:4]), data)
+    return False
+
+
 def _rwlock_part(rep, tier, wd, J):
     rwmod = _real_rwmod()
     instances = _instances(tier)
     total_edges = 0
     first = None
+    structure_ok = _structure_check(rep, rwmod)
     for (R, W, P, walk) in instances:
         tag = "%dR+%dW x %d pass%s" % (R, W, P, "es" if P > 1 else "")
         iwd = os.path.join(wd, "rw_%d%d%d" % (R, W, P))
@@ -161,7 +206,7 @@ def _rwlock_part(rep, tier, wd, J):
             never = [a for a, (n, _) in cov.items() if (a.startswith(("RA_", "RR_", "WA_", "WR_", "R_CS", "W_CS"))) and n == 0]
             if never:
                 raise MachineryError("vacuity: RWLock actions never taken: %s" % never)
-        if not walk or res.violated:
+        if not walk or res.violated or not structure_ok:
             continue
         info = None
         for v in res.printed:
@@ -272,6 +317,7 @@ def _ctx(name):
     from register_crypto_plugin.ecdsa import ellipticcurve as ec, ecdsa as es
     c = Ctx()
     c.name, c.ec, c.es = name, ec, es
+    c.libdir = os.path.dirname(os.path.abspath(ec.__file__)) + os.sep
     r = rng("c20/" + name)
     if name == "tiny":
         c.curve = ec.CurveFp(17, 2, 2, 1)
@@ -299,6 +345,13 @@ def _ctx(name):
     z = 3 if name == "tiny" else r.randrange(2, c.p)
     c.qz = z
     c.make_q = lambda zz=None: ec.PointJacobi(c.curve, c.qx * (zz or z) ** 2 % c.p, c.qy * (zz or z) ** 3 % c.p, (zz or z), c.n)
+    # a generator that is given in Jacobian form (z != 1): its table is built from coordinates B may rescale meanwhile
+    zj = 5 if name == "tiny" else r.randrange(2, c.p)
+    c.make_jgen = lambda: ec.PointJacobi(c.curve, c.gx * zj ** 2 % c.p, c.gy * zj ** 3 % c.p, zj, c.n, generator=True)
+    # an unrelated, unshared point (Jacobian form): operations on it must not be disturbed either
+    o = (ref * 3).to_affine()
+    zo = 6 if name == "tiny" else r.randrange(2, c.p)
+    c.make_other = lambda: ec.PointJacobi(c.curve, int(o.x()) * zo ** 2 % c.p, int(o.y()) * zo ** 3 % c.p, zo, c.n)
     c.gaff = ec.Point(c.curve, c.gx, c.gy, c.n)
     c.qaff = ec.Point(c.curve, c.qx, c.qy, c.n)
     c.kA = 11 if name == "tiny" else r.randrange(2, c.n)
@@ -314,6 +367,10 @@ def _ctx(name):
     return c
 
 
+def _make(c, mode):
+    return {"table": c.make_gen, "scale": c.make_q, "jtable": c.make_jgen}[mode]()
+
+
 def _canon(c, v):
     ec = c.ec
     if v is ec.INFINITY:
@@ -322,14 +379,21 @@ def _canon(c, v):
         return ("pt", int(v.x()), int(v.y()))
     if isinstance(v, bool):
         return ("b", v)
+    if isinstance(v, (bytes, bytearray)):
+        return ("bytes", bytes(v).hex())
     return ("v", int(v))
 
 
 def _ops(c, mode, full):
-    """B's complete operations on the shared object: [(name, fn(obj))]"""
+    """B's complete operations: [(name, fn(shared object))].  Order: reads of the shared point (x, y, encodings),
+    a read of an unrelated point, the other operations (those that rescale the shared point in place come late in
+    the "scale" scenario and early in the "jtable" scenario), a read of the unrelated point again."""
     ec, es = c.ec, c.es
-    ops = []
     ks = c.ks_full if full else c.ks
+    X = {"table": "G", "scale": "Q", "jtable": "J"}[mode]
+    ops = [(X + ".x()", lambda o: o.x()), (X + ".y()", lambda o: o.y()),
+           (X + ".to_bytes()", lambda o: o.to_bytes("uncompressed")), (X + ".to_bytes(compressed)", lambda o: o.to_bytes("compressed")),
+           ("other.y()", lambda o: c.make_other().y())]
     if mode == "table":             # obj = generator whose table is being built
         for k in ks:
             ops.append(("%d*G" % k if k < 1000 else "k*G", (lambda o, k=k: o * k)))
@@ -339,19 +403,28 @@ def _ops(c, mode, full):
         ops.append(("G == Q", lambda o: o == c.qaff))
         ops.append(("G + Q", lambda o: o + c.make_q()))
         ops.append(("G.double()", lambda o: o.double()))
-        ops.append(("G.x()", lambda o: o.x()))
-        ops.append(("G.y()", lambda o: o.y()))
         ops.append(("G.mul_add(a, Q, b)", lambda o: o.mul_add(c.kA, c.make_q(), 5)))
         ops.append(("G.to_affine()", lambda o: o.to_affine()))
         if c.name != "tiny":
             ops.append(("verify good signature", lambda o: es.Public_key(o, c.qaff, False).verifies(c.h, c.sig)))
             ops.append(("verify wrong hash", lambda o: es.Public_key(o, c.qaff, False).verifies(c.h + 1, c.sig)))
+    elif mode == "jtable":          # obj = generator in Jacobian form: B rescales it, then multiplies
+        ops.append(("J == affine G", lambda o: o == c.gaff))
+        ops.append(("J.to_affine()", lambda o: o.to_affine()))
+        for k in ks:
+            ops.append(("%d*J" % k if k < 1000 else "k*J", (lambda o, k=k: o * k)))
+        ops.append(("k*J (rmul)", lambda o: c.kA * o))
+        ops.append(("J.scale()", lambda o: o.scale()))
+        ops.append(("J + Q", lambda o: o + c.make_q()))
+        ops.append(("J.double()", lambda o: o.double()))
+        ops.append(("J.mul_add(a, Q, b)", lambda o: o.mul_add(c.kA, c.make_q(), 5)))
+        if c.name != "tiny":
+            ops.append(("verify good signature (J as generator)", lambda o: es.Public_key(o, c.qaff, False).verifies(c.h, c.sig)))
+            ops.append(("verify wrong hash", lambda o: es.Public_key(o, c.qaff, False).verifies(c.h + 1, c.sig)))
     else:                           # obj = Jacobian point Q (no generator) that is being rescaled in place
         ops.append(("Q == affine Q", lambda o: o == c.qaff))
         ops.append(("Q == Q with another z", lambda o: o == c.make_q(c.qz + 1)))
         ops.append(("Q == G", lambda o: o == c.gaff))
-        ops.append(("Q.x()", lambda o: o.x()))
-        ops.append(("Q.y()", lambda o: o.y()))
         ops.append(("Q + G", lambda o: o + c.ref))
         ops.append(("Q.double()", lambda o: o.double()))
         ops.append(("-Q", lambda o: -o))
@@ -360,9 +433,13 @@ def _ops(c, mode, full):
         for k in (c.ks if c.name == "tiny" else c.ks[:6]):
             ops.append(("k*Q", (lambda o, k=k: o * k)))
         ops.append(("G.mul_add(a, Q, b)", lambda o: c.ref.mul_add(c.kA, o, 5)))
+        ops.append(("Q.scale()", lambda o: o.scale()))
         ops.append(("Q.to_affine()", lambda o: o.to_affine()))
         if c.name != "tiny":
             ops.append(("verify wrong hash", lambda o: es.Public_key(c.ref, o, False).verifies(c.h + 1, c.sig)))
+    ops.append(("other.to_bytes()", lambda o: c.make_other().to_bytes("uncompressed")))
+    ops.append(("other.to_affine()", lambda o: c.make_other().to_affine()))
+    ops.append(("other.x()", lambda o: c.make_other().x()))
     return ops
 
 
@@ -388,18 +465,17 @@ def _peek(c, obj, loc):
 
 def _codes(c, mode):
     PJ = c.ec.PointJacobi
-    return [PJ._maybe_precompute.__code__] if mode == "table" else [PJ.scale.__code__]
+    return [PJ.scale.__code__] if mode == "scale" else [PJ._maybe_precompute.__code__]
 
 
-def _count_events(name, mode, opcode):
+def _count_events(name, mode, opcode, deep):
     c = _ctx(name)
-    obj = c.make_gen() if mode == "table" else c.make_q()
     # CPython 3.12 delivers 'opcode' events for a code object only from the second traced execution on
     # (the instrumentation is installed by the first one): repeat until the count is stable
     counts = []
-    for _ in range(4):
-        obj = c.make_gen() if mode == "table" else c.make_q()
-        p = sched.Preempter(lambda: obj * c.kA, _codes(c, mode), obj, None, opcode)
+    for _ in range(5):
+        obj = _make(c, mode)
+        p = sched.Preempter(lambda: obj * c.kA, _codes(c, mode), obj, None, opcode, c.libdir if deep else None)
         p.run_to_stop()
         p.run_to_end()
         if p.error:
@@ -407,52 +483,59 @@ def _count_events(name, mode, opcode):
         counts.append(p.count)
         if len(counts) >= 2 and counts[-1] == counts[-2] and counts[-1] > 0:
             return p.count
-    raise MachineryError("number of %s events of %s is not stable: %r" % ("opcode" if opcode else "line", mode, counts))
+    if max(counts) == 0:
+        raise MachineryError("no %s events of %s were delivered" % ("opcode" if opcode else "line", mode))
+    return max(counts)      # history-dependent paths (caches): an upper estimate is enough
+
+
+def _gname(name, mode, opcode, deep):
+    return "%s/%s/%s%s" % (name, mode, "opcode" if opcode else "line", "+callees" if deep else "")
 
 
 def _point(task):
     """one pre-emption point -> one event"""
-    name, mode, opcode, full, idx, grp, tid, K = task
+    name, mode, opcode, deep, full, idx, grp, tid, K = task
     c = _ctx(name)
     key = (mode, full)
     ops = _ops(c, mode, full)
     if key not in c.expected:
         # "one after another": B's operations before A's operation, or after it
-        fresh = c.make_gen() if mode == "table" else c.make_q()
-        first = _run_ops(c, ops, fresh)
-        after_a = c.make_gen() if mode == "table" else c.make_q()
+        first = _run_ops(c, ops, _make(c, mode))
+        after_a = _make(c, mode)
         res_a = _canon(c, after_a * c.kA)
         c.expected[key] = ([(x, y) for x, y in zip(first, _run_ops(c, ops, after_a))], res_a)
     exp, expA = c.expected[key]
-    obj = c.make_gen() if mode == "table" else c.make_q()
-    P = sched.Preempter(lambda: obj * c.kA, _codes(c, mode), obj, idx, opcode)
+    obj = _make(c, mode)
+    P = sched.Preempter(lambda: obj * c.kA, _codes(c, mode), obj, idx, opcode, c.libdir if deep else None)
     stopped = P.run_to_stop()
-    loc = P.frame_locals.get("precompute") if stopped and mode == "table" else None
-    if stopped != (idx < K):
-        raise MachineryError("pre-emption point %d of %d (%s %s %s) was not reached as planned" % (idx, K, name, mode, opcode))
-    if not stopped and mode == "table":
-        loc = obj._PointJacobi__precompute          # A is through: its list is the published one
-    L = len(loc) if loc is not None else 0          # now: A goes on appending to this very list later
-    loc_ok = loc is None or list(loc) == c.table[:L]
-    before = _peek(c, obj, loc)
-    got = _run_ops(c, ops, obj)
-    bad = [ops[i][0] for i in range(len(ops)) if got[i] not in exp[i]]
-    after = _peek(c, obj, loc)
-    P.run_to_end()
+    try:
+        # (K is the event count of a sequential run.  A run may take a few events more or less when the code keeps
+        #  history-dependent state, e.g. a cache: then A is simply stopped a little earlier/later, or is already through.)
+        loc = P.frame_locals.get("precompute") if stopped and mode != "scale" else None
+        if not stopped and mode != "scale":
+            loc = obj._PointJacobi__precompute          # A is through: its list is the published one
+        L = len(loc) if loc is not None else 0          # now: A goes on appending to this very list later
+        loc_ok = loc is None or list(loc) == c.table[:L]
+        before = _peek(c, obj, loc)
+        got = _run_ops(c, ops, obj)
+        bad = [ops[i][0] for i in range(len(ops)) if got[i] not in exp[i]]
+        after = _peek(c, obj, loc)
+    finally:
+        P.run_to_end()                                  # thread A is never left parked
     fbad = []
     if P.error is not None or _canon(c, P.result) != expA:
         fbad.append("A's own %d*X" % c.kA if c.name == "tiny" else "A's own k*X")
     got2 = _run_ops(c, ops, obj)
     fbad += [ops[i][0] for i in range(len(ops)) if got2[i] not in exp[i]]
     fin = _peek(c, obj, None)
-    return {"tid": tid, "grp": grp, "op": "pt", "mode": mode, "idx": idx, "n": c.N,
+    return {"tid": tid, "grp": grp, "op": "pt", "mode": mode, "idx": idx, "adj": not deep, "n": c.N,
             "loc_len": L, "loc_ok": loc_ok,
             "pub_len": before["len"], "pub_ok": before["ok"], "same": before["same"], "z1": before["z1"], "co_ok": before["co_ok"],
             "b_len": after["len"], "b_ok": after["ok"], "b_z1": after["z1"], "b_co_ok": after["co_ok"],
             "res": len(ops), "res_bad": len(bad),
             "f_len": fin["len"], "f_ok": fin["ok"], "f_z1": fin["z1"], "f_co_ok": fin["co_ok"], "f_res_bad": len(fbad),
-            "_line": P.lineno if stopped else 0, "_stopped": stopped, "_bad": bad[:5], "_fbad": fbad[:5],
-            "_gran": "opcode" if opcode else "line", "_curve": name}
+            "_line": P.lineno if stopped else 0, "_in": P.where if stopped else "", "_stopped": stopped, "_bad": bad[:5], "_fbad": fbad[:5],
+            "_gran": "opcode" if opcode else "line", "_deep": bool(deep), "_curve": name, "_g": _gname(name, mode, opcode, deep)}
 
 
 def _lazy_part(rep, tier, wd, J):
@@ -465,62 +548,72 @@ def _lazy_part(rep, tier, wd, J):
         raise MachineryError("TLC failed on MC_LazyTable:\n" + res.clean()[-3000:])
     rep.add_mc("MC_LazyTable N=%d: table empty-or-complete, coordinates old-or-new, reader result = sequential result, "
                "publication only when complete, every builder statement is an allowed effect, builder finishes" % N, res, {"N": N})
-    for sw in ("EARLY_PUBLISH", "SPLIT_ASSIGN"):
+    for sw in ("EARLY_PUBLISH", "SPLIT_ASSIGN", "TORN_READ"):
         if "ReaderOK" not in J["lt_" + sw].violated:
             raise MachineryError("self-test: LazyTable with %s = TRUE was not refuted (ReaderOK)" % sw)
-    rep.cov["parts"]["selftest LazyTable variants"] = "EARLY_PUBLISH and SPLIT_ASSIGN each refuted by TLC (ReaderOK: the reader sees a partial table / a mixed triple)"
+    rep.cov["parts"]["selftest LazyTable variants"] = ("EARLY_PUBLISH, SPLIT_ASSIGN and TORN_READ each refuted by TLC (ReaderOK: the reader sees a partial table / a mixed triple / "
+                                                         "a table built from a torn read of the coordinates)")
 
     # ---- C->S: record
     thorough = tier == "thorough"
-    plan = [("tiny", "table", False, True), ("tiny", "table", True, True), ("tiny", "scale", False, True), ("tiny", "scale", True, True),
-            ("nist256p", "table", False, thorough), ("nist256p", "scale", False, True), ("nist256p", "scale", True, True)]
+    # (curve, scenario, byte-code level, callees traced too, all multipliers, points: None = every one / number to sample)
+    plan = []
+    for mode in ("table", "scale", "jtable"):
+        plan += [("tiny", mode, False, True, True, None), ("tiny", mode, True, True, True, None)]
+    plan += [("nist256p", "table", False, False, thorough, None),
+             ("nist256p", "table", False, True, False, None if thorough else 150),
+             ("nist256p", "scale", False, True, True, None), ("nist256p", "scale", True, True, True, None),
+             ("nist256p", "jtable", False, True, False, None if thorough else 120)]
     if thorough:
-        plan.append(("nist256p", "table", True, False))
+        plan.append(("nist256p", "table", True, False, False, None))
+        plan.append(("nist256p", "jtable", True, False, False, 2000))
     r = rng("c20/points")
     tasks, tid, groups = [], 0, {}
     CH = 100
-    for (name, mode, opcode, full) in plan:
-        K = _count_events(name, mode, opcode)
-        gname = "%s/%s/%s" % (name, mode, "opcode" if opcode else "line")
+    for (name, mode, opcode, deep, full, sample) in plan:
+        K = _count_events(name, mode, opcode, deep)
+        gname = _gname(name, mode, opcode, deep)
         idxs = list(range(K + 1))
-        if not thorough and name == "nist256p" and mode == "table" and os.environ.get("VERIF_C20_SAMPLE"):
-            keep = set(range(0, 40)) | set(range(K - 40, K + 1)) | set(r.sample(range(K + 1), 260))
-            idxs = sorted(keep)         # (escape hatch for slow machines; the default runs every point)
+        if sample is not None and sample < K:       # the first and the last events (publication) always, the rest sampled
+            idxs = sorted(x for x in set(range(0, 150)) | set(range(K - 60, K + 1)) | set(r.sample(range(K + 1), sample)) if 0 <= x <= K)
         groups[gname] = {"preemption_points_total": K + 1, "points_run": len(idxs), "B_operations_per_point": 0}
         for j, idx in enumerate(idxs):
             ch = j // CH
             tid += 1
-            tasks.append((name, mode, opcode, full, idx, "%s/%d" % (gname, ch), tid, K))
+            tasks.append((name, mode, opcode, deep, full, idx, "%s/%d" % (gname, ch), tid, K))
             if j % CH == 0 and j > 0:       # chunk boundary: the event is also the last one of the previous chunk
                 tid += 1
-                tasks.append((name, mode, opcode, full, idx, "%s/%d" % (gname, ch - 1), -tid, K))
+                tasks.append((name, mode, opcode, deep, full, idx, "%s/%d" % (gname, ch - 1), -tid, K))
     # duplicates (negative marker) are computed once
-    uniq = [t for t in tasks if t[6] > 0]
+    uniq = [t for t in tasks if t[7] > 0]
     t0 = time.time()
-    with mp.get_context("fork").Pool(NPROC) as pool:
-        evs = pool.map(_point, sorted(uniq, key=lambda t: -t[4]), chunksize=4)
+    evs = _pmap(_point, sorted(uniq, key=lambda t: (t[0] != "nist256p", -t[5])), 4, "recording of pre-emption points")
     rec_wall = time.time() - t0
-    by_key = {(e["_curve"], e["mode"], e["_gran"], e["idx"]): e for e in evs}
+    by_key = {(e["_g"], e["idx"]): e for e in evs}
     events = []
-    for (name, mode, opcode, full, idx, grp, t, _K) in tasks:
-        e = by_key[(name, mode, "opcode" if opcode else "line", idx)]
+    for (name, mode, opcode, deep, full, idx, grp, t, _K) in tasks:
+        e = by_key[(_gname(name, mode, opcode, deep), idx)]
         if t < 0:
             e = dict(e, tid=-t, grp=grp, _dup=True)
         events.append(e)
     for e in evs:
-        g = groups["%s/%s/%s" % (e["_curve"], e["mode"], e["_gran"])]
+        g = groups[e["_g"]]
         g["B_operations_per_point"] = e["res"]
         g.setdefault("table_len_seen_by_B", set()).add(e["pub_len"])
         g.setdefault("coords_form_seen_by_B", set()).add("affine" if e["z1"] else "jacobian")
+        if e["_in"]:
+            g.setdefault("stopped_in", set()).add(e["_in"])
     for g in groups.values():
-        g["table_len_seen_by_B"] = sorted(g["table_len_seen_by_B"])
-        g["coords_form_seen_by_B"] = sorted(g["coords_form_seen_by_B"])
+        for k in ("table_len_seen_by_B", "coords_form_seen_by_B", "stopped_in"):
+            g[k] = sorted(g.get(k, ()))
     # vacuity: A was really stopped before and after its publication / assignment
     for gname, g in groups.items():
-        if "/table/" in gname and len(g["table_len_seen_by_B"]) < 2:
+        if ("/table/" in gname or "/jtable/" in gname) and len(g["table_len_seen_by_B"]) < 2:
             raise MachineryError("vacuity: B never saw both the empty and the complete table in %s" % gname)
         if "/scale/" in gname and len(g["coords_form_seen_by_B"]) < 2:
             raise MachineryError("vacuity: B never saw both coordinate forms in %s" % gname)
+        if "+callees" in gname and "inverse_mod" not in g["stopped_in"]:
+            raise MachineryError("vacuity: thread A was never stopped inside a callee (numbertheory.inverse_mod) in %s" % gname)
 
     # ---- C->S: validate (one TLC configuration per table length)
     n_real = len(evs)
@@ -570,13 +663,15 @@ def _lazy_part(rep, tier, wd, J):
         if t in canaries:
             continue
         e = byid[t]
-        k = (e["_curve"], e["mode"], e["_gran"], e["idx"], clause)
+        k = (e["_g"], e["idx"], clause)
         if k in seen:
             continue
         seen.add(k)
         rep.violation("C20:lazy-%s-%s" % (e["mode"], clause),
-                      "thread A stopped at %s event %d (line %d) of %s on %s: observation rejected by LazyTable (%s)"
-                      % (e["_gran"], e["idx"], e["_line"], "_maybe_precompute" if e["mode"] == "table" else "scale", e["_curve"], clause), e)
+                      "thread A stopped at %s event %d of %s (in %s, line %d) on %s, scenario %s: observation rejected by LazyTable (%s)%s"
+                      % (e["_gran"], e["idx"], "scale" if e["mode"] == "scale" else "_maybe_precompute", e["_in"] or "-", e["_line"],
+                         e["_curve"], e["mode"], clause,
+                         "; wrong: " + ", ".join((e["_bad"] or []) + (e["_fbad"] or [])) if e["_bad"] or e["_fbad"] else ""), e)
     total_stats["record_wall_s"] = round(rec_wall, 2)
     total_stats["canaries_rejected"] = len(canaries)
     rep.add_trace("Trace_LazyTable (thread A stopped at every line / byte code; thread B's complete operations on the same object)",
@@ -649,9 +744,9 @@ def replay(path):
         print("REPRODUCED" if not same else "not reproduced (real state equals the expected state now)")
         return 0 if same else 1
     if "idx" in data and "_curve" in data:
-        op = data["_gran"] == "opcode"
-        K = _count_events(data["_curve"], data["mode"], op)
-        e = _point((data["_curve"], data["mode"], op, True, data["idx"], "replay", 1, K))
+        op, deep = data["_gran"] == "opcode", bool(data.get("_deep"))
+        K = _count_events(data["_curve"], data["mode"], op, deep)
+        e = _point((data["_curve"], data["mode"], op, deep, True, data["idx"], "replay", 1, K))
         print(json.dumps(e, indent=1, default=str))
         bad = e["res_bad"] or e["f_res_bad"] or not (e["pub_ok"] and e["co_ok"] and e["b_ok"] and e["b_co_ok"] and e["f_ok"] and e["f_co_ok"]) \
             or e["pub_len"] not in (0, e["n"])
